@@ -25,6 +25,8 @@ from vmc import sched, vfutures, vthreading, vtime
 
 OK, DEADLINE_BEFORE, DEADLINE_AFTER, KILL = 'ok', 'deadline-before', 'deadline-after', 'kill'
 KILL_OTHER = 'kill-other'
+SLOW = 'slow-reply'      # not a fault: the reply arrives late (after quiescence)
+SLOW_SECS = 5.0
 
 
 class StatusError(Exception):
@@ -185,6 +187,7 @@ class Client:
       fut.set_exception(StatusError(UNKNOWN, f'method {method} not found'))
       return fut
     drop_reply = answer == DEADLINE_AFTER
+    slow = answer == SLOW
     if drop_reply:
       self._expire(fut, timeout, f'{method} to {addr}: reply lost')
 
@@ -204,6 +207,8 @@ class Client:
         return
       if drop_reply or server._killed_flag():
         return
+      if slow:
+        vtime.sleep(SLOW_SECS)
       if not fut.done():
         fut.set_result(result)
 
